@@ -315,3 +315,19 @@ mod tests {
         );
     }
 }
+
+#[cfg(feature = "verif-hooks")]
+#[doc(hidden)]
+#[allow(missing_docs)]
+pub mod verif_hooks {
+    use super::*;
+
+    pub fn stringify_input_value(
+        registry: &Registry,
+        output: &mut String,
+        meta_input_value: Option<&MetaInputValue>,
+        value: &ConstValue,
+    ) -> FmtResult {
+        registry.stringify_input_value(output, meta_input_value, value)
+    }
+}
